@@ -309,11 +309,14 @@ class World:
     def describe(self):
         return dict(nodes=[self.nodes[i] for i in self.order], max_concurrency=self.max_concurrency, consts={k: repr(v) for k, v in self.consts.items()}, inputs=self.inputs)
 
-    def value_of(self, nid, args):
+    def value_of(self, nid, args, kwargs=None):
         n = self.nodes[nid]
         if "value" in n:
             return n["value"]
-        return {"id": nid, "args": list(args), "t": True, "f": False, "k": {"t": True, "f": False}}
+        v = {"id": nid, "args": list(args), "t": True, "f": False, "k": {"t": True, "f": False}}
+        if kwargs:
+            v["kw"] = dict(kwargs)
+        return v
 
     def make_fn(self, nid):
         w = self
@@ -327,7 +330,7 @@ class World:
             try:
                 if w.nodes[nid].get("fails"):
                     raise NodeFault(nid)
-                v = w.value_of(nid, args)
+                v = w.value_of(nid, args, kwargs)
                 ok = True
                 return v
             finally:
